@@ -15,6 +15,7 @@ import (
 	"context"
 	"errors"
 	"fmt"
+	"reflect"
 	"sort"
 	"strconv"
 	"strings"
@@ -24,6 +25,40 @@ import (
 
 	"github.com/tochemey/goakt/v4/actor"
 )
+
+// verifBool reads an unexported bool field by name ("-" when the actor has no such field, so that the
+// harness still builds and runs against a tree where the field was removed).
+func verifBool(a any, name string) string {
+	v := reflect.ValueOf(a)
+	if v.Kind() == reflect.Ptr {
+		v = v.Elem()
+	}
+	f := v.FieldByName(name)
+	if !f.IsValid() || f.Kind() != reflect.Bool {
+		return "-"
+	}
+	if f.Bool() {
+		return "1"
+	}
+	return "0"
+}
+
+// verifQueueLen reads the length of an unexported `queue` field by name ("-" when absent).
+func verifQueueLen(a any, name string) string {
+	v := reflect.ValueOf(a)
+	if v.Kind() == reflect.Ptr {
+		v = v.Elem()
+	}
+	f := v.FieldByName(name)
+	if !f.IsValid() || f.Kind() != reflect.Struct {
+		return "-"
+	}
+	d, h := f.FieldByName("data"), f.FieldByName("head")
+	if !d.IsValid() || !h.IsValid() {
+		return "-"
+	}
+	return strconv.Itoa(d.Len() - int(h.Int()))
+}
 
 // VerifFmt renders a stream element canonically: ints as decimal, slices as [a,b,c].
 func VerifFmt(v any) string {
@@ -328,7 +363,7 @@ func (r *VerifRig) State() string {
 	case *flowActor:
 		return fmt.Sprintf("cr=%d,dm=%d,bf=%d,cp=%d,al=%d", a.upstreamCredit, a.downstreamDemand, a.outputBuf.len(), b(a.completing), alive)
 	case *fusedFlowActor:
-		return fmt.Sprintf("cr=%d,al=%d", a.credit, alive)
+		return fmt.Sprintf("cr=%d,st=%s,al=%d", a.credit, verifBool(a, "started"), alive)
 	case *pullSourceActor:
 		return fmt.Sprintf("al=%d", alive)
 	case *sinkActor:
@@ -341,7 +376,7 @@ func (r *VerifRig) State() string {
 }
 
 func (a *batchFlowActor[T]) verifState() string {
-	return fmt.Sprintf("cr=%d,dm=%d,wn=%d", a.upstreamCredit, a.downstreamDemand, len(a.window))
+	return fmt.Sprintf("cr=%d,dm=%d,wn=%d,fd=%s,cp=%s", a.upstreamCredit, a.downstreamDemand, len(a.window), verifBool(a, "flushDue"), verifBool(a, "completing"))
 }
 
 func (a *parallelMapActor[In, Out]) verifState() string {
@@ -349,7 +384,7 @@ func (a *parallelMapActor[In, Out]) verifState() string {
 	if a.upstreamDone {
 		d = 1
 	}
-	return fmt.Sprintf("if=%d,pn=%d,ne=%d,ud=%d", a.inFlight, len(a.pending), a.nextEmit, d)
+	return fmt.Sprintf("if=%d,pn=%d,ne=%d,ud=%d,st=%s", a.inFlight, len(a.pending), a.nextEmit, d, verifBool(a, "started"))
 }
 
 func (a *mergeSourceActor[T]) verifState() string {
